@@ -12,7 +12,7 @@ func init() {
 		ID:  "C02",
 		Run: runC02,
 		Decided: "the end-condition mechanics the convergence argument rests on: the Kademlia end condition looks at exactly the beta nearest peers in states heard/waiting/queried and holds only if each of them is queried (R1); starvation is `no heard and no waiting` (R2); the next peers asked are the nearest merely-heard ones, the readiness test precedes every spawn round and a terminated query spawns nothing (R3); " +
-			"the follow-up asks exactly the heard/waiting peers of the result, one worker each, is skipped and marked incomplete when the context ended or the stop function fired, counts each finished worker before any exit of its select arm and drains the rest (R4); network-size tracking and refresh-timer resets happen only for completed, uncancelled lookups, and `completed` is `end condition or starvation` (R5).",
+			"the follow-up asks exactly the heard/waiting peers of the result, one worker each, is skipped and marked incomplete when the context ended or the stop function fired, counts each finished worker before any exit of its select arm and drains the rest (R4); network-size tracking and refresh-timer resets happen only for completed, uncancelled lookups, and `completed` is `end condition or starvation` (R5); the configured Resiliency, Concurrency and BucketSize reach the lookup unchanged (R7).",
 		NotDecided: "convergence on any topology (a statement about runtime values: which peers exist and what they answer); optimal termination time.",
 	})
 }
@@ -31,6 +31,53 @@ func stateAtom(info *eng.Info, leaf ast.Expr, subject func(ast.Expr) bool) (stri
 		return "", false, false
 	}
 	return "is" + co.Name(), b.Op == token.EQL, true
+}
+
+// c02ConfigPlumbing: the lookup parameters the caller configured are the ones the lookup runs
+// with: New and makeDHT never rewrite Resiliency / Concurrency / BucketSize, and makeDHT copies
+// them into beta / alpha / bucketSize.
+func c02ConfigPlumbing(c *Ctx) {
+	p := c.P
+	for _, fld := range []string{"Resiliency", "Concurrency", "BucketSize"} {
+		q := "dht/internal/config.Config." + fld
+		n := 0
+		for _, f := range p.Funcs() {
+			for _, acc := range f.FieldAccesses(q) {
+				if !acc.Write {
+					continue
+				}
+				n++
+				root := f.Root()
+				// option constructors (their closures run before validation) and the config package's defaults
+				okW := eng.Short(root.Pkg.PkgPath) == "dht/internal/config" || (f.Lit != nil && root.Obj != nil && root.Obj.Exported() && root.Name != "dht.New")
+				c.Check(K(f.Name, "writes "+fld), acc.Sel.Pos(), okW, "the configured "+fld+" is written only by option functions and defaults, never adjusted by the constructor", "config."+fld+" assigned in "+root.Name)
+			}
+		}
+		_ = n
+	}
+	mk := c.Fn("dht.makeDHT")
+	minfo := mk.Info()
+	want := map[string]string{"beta": "Resiliency", "alpha": "Concurrency", "bucketSize": "BucketSize"}
+	got := map[string]bool{}
+	mk.Walk(func(n ast.Node) bool {
+		kv, ok := n.(*ast.KeyValueExpr)
+		if !ok {
+			return true
+		}
+		id, isID := kv.Key.(*ast.Ident)
+		if !isID {
+			return true
+		}
+		if cfgFld, ok := want[eng.NameOf(id)]; ok {
+			if eng.IsField(minfo, kv.Value, "dht/internal/config.Config."+cfgFld) {
+				got[eng.NameOf(id)] = true
+			}
+		}
+		return true
+	})
+	for k, v := range want {
+		c.Check(K(mk.Name, k+" = cfg."+v), mk.Pos(), got[k], "the DHT's "+k+" is the configured "+v, "makeDHT does not initialise "+k+" from cfg."+v)
+	}
 }
 
 func runC02(c *Ctx) {
@@ -264,6 +311,10 @@ func runC02(c *Ctx) {
 	// R6 a completed lookup hands out the non-failed list
 	c.Rule("R6")
 	c01Closest(c)
+
+	// R7 the configured beta / alpha / K are the ones the lookup runs with
+	c.Rule("R7")
+	c02ConfigPlumbing(c)
 
 	// R5 side effects only on completed lookups
 	c.Rule("R5")
